@@ -100,6 +100,37 @@ def r4(cx, rec):
     C15.r2(cx, rec)
 
 
+REGEN = ('to_string', 'format', 'into_bytes', 'to_be_bytes', 'to_le_bytes', 'fmt')
+
+
+@TABLE.rule('4b', 'K5b', 'the raw form a token parser returns is copied from the input span (digits as written), never re-generated from '
+            'the parsed value', floor=2)
+def r4b(cx, rec):
+    F = cx.F
+    # token parsers of both codecs: functions that return (value, raw bytes) or raw bytes and consume the input iterator
+    cands = [f for f in F.user_fns() if f.path.startswith('bcodec::') and f.kind in ('Fn', 'AssocFn') and C.params_of(f, r'Enumerate<') and
+             re.search(r'^std::result::Result<(\(.*, std::vec::Vec<u8>\)|std::vec::Vec<u8>),', f.locals[0]['ty'])]
+    n = 0
+    for f in cands:
+        for bi, si, e in mirq.agg_sites(f, r'^std::result::Result$', 'Ok'):
+            t = e[4][0][1]
+            raw = t[4][-1][1] if t[0] == 'agg' and t[1] == 'tuple' else t
+            contribs = [mirq.init_of(raw) if raw[0] in ('var', 'mvar') else raw]
+            idn = mirq._ident(raw) if raw[0] in ('var', 'mvar') else None
+            if idn:
+                for bb, ce in mirq.sharing_calls(f, idn):
+                    if ce[4].get('name') in ('push', 'append', 'extend', 'extend_from_slice', 'insert', 'push_str', 'resize'):
+                        contribs.extend(ce[2][1:])
+            regen = sorted({x[4].get('name') for c in contribs for x in walk(c, inl=False)
+                            if x[0] == 'call' and (x[4].get('name') in REGEN or x[1].endswith('fmt::format'))})
+            n += 1
+            rec.site(f, bi, '%s: raw form built from %d contribution(s), re-generating calls: %s' % (f.name, len(contribs), regen))
+            rec.need(not regen, 'raw-regenerated/' + f.name, f, bi,
+                     'the raw bytes returned by %s are produced by %s from the parsed value: a non-canonical but accepted spelling '
+                     '(leading zeros in a length, "-0") is hashed in its canonical form, not as written' % (f.name, regen))
+    rec.need(n >= 2, 'raw-parsers', 'bcodec', None, 'token parsers returning raw bytes found: %d' % n)
+
+
 def key_params(f):
     """names of the byte-string parameters of a finder function (the wanted key)"""
     return {n for n, l, t in C.params_of(f, r'^&\[u8\]$|^&str$|^&std::vec::Vec<u8>$')}
